@@ -413,6 +413,19 @@ pub fn c05_base(n: usize, start: usize, len: usize) -> Vec<Case> {
             ops.push(Op::IntoIter(s));
         }
     }
+    // consumption through adaptors that destroy elements inside the iterator machinery
+    // (count, last, nth, skip, step_by drop what they pass over)
+    for pre in [vec![], vec![Step::Next], vec![Step::NextBack]] {
+        for t in [Step::Count, Step::Last, Step::Nth(1), Step::Nth(2), Step::NthBack(1), Step::Skip(1), Step::StepBy(1), Step::RevLast] {
+            let mut s = pre.clone();
+            s.push(t);
+            ops.push(Op::IntoIter(s.clone()));
+            ops.push(Op::Drain(RangeSpec::full(), s.clone(), End::Drop));
+            if len >= 2 {
+                ops.push(Op::Drain(canonical(1, len), s, End::Drop));
+            }
+        }
+    }
     let mut out = Vec::new();
     for (k, op) in ops.into_iter().enumerate() {
         let mut v = vec![op];
